@@ -31,6 +31,7 @@ pub mod reexport {
         Utf8LengthPrefixedDecoder,
     };
     pub use crate::protocols::unreal2::Unreal2StringDecoder;
+    pub use crate::socket::{Socket, TcpSocket, UdpSocket};
     pub use crate::utils::{error_by_expected_size, retry_on_timeout, u8_lower_upper};
 
     #[cfg(feature = "games")]
